@@ -19,6 +19,24 @@ CHECKS = {
              'segmentations, random 8-bit beyond) is validated by TLC as a behaviour of that automaton.',
         design='5/C05', technique='TLA+ reference automaton, TLC exhaustive + TLC batch trace validation of real executions',
         note='Bytes reach the reader only through IO.raw_recv/IO.recv_buffer. ' + TB),
+    'C17': dict(
+        level='model_checking',
+        text='TLC exhaustively checks the ReplyCodec encoder/parser model (round trip and exact length for every text over '
+             'a small alphabet, trailer and segmentation; decision stability and bounded consumption for every byte '
+             'string over the malformed-shape alphabet); every real Reply.send -> Reply.recv / IO.recv_reply execution '
+             'the driver produces (generated replies, 1-3 per stream, exhaustive/random segmentations, exhaustive '
+             'malformed shapes) is validated by TLC against that parser, clause by clause.',
+        design='5/C17', technique='TLA+ reference codec, TLC exhaustive + TLC batch trace validation of real executions',
+        note='Domain restrictions of the statement are applied by a spec-side InDomain predicate. ' + TB),
+    'C20': dict(
+        level='exploration',
+        text='The header/body boundary and line-end normalisation are specified in TLA+ (EnvelopeCodec) and checked by TLC '
+             'against a declarative characterisation for every string to the bound; real Envelope parse/flatten/copy/'
+             'pickle/re-parse executions over those strings, generated in-domain messages and arbitrary bytes are '
+             'validated by TLC against it. Header re-serialisation and 7-bit transfer encodings are codec fidelity of '
+             'the standard library: identity oracle / driver-measured facts, hence exploration rather than model checking.',
+        design='5/C20 and 8', technique='TLA+ boundary/normalisation operators, TLC trace validation of sampled real executions',
+        note='7-bit decode fidelity judged by python email; header identity only inside the stated domain. ' + TB),
 }
 
 HOOK_COMMITS = []
